@@ -686,6 +686,19 @@ def _validate_on_missing(on_missing: str) -> None:
         raise ValueError(f"Invalid on_missing={on_missing!r}. Expected one of: {', '.join(_VALID_ON_MISSING)}")
 
 
+def _validate_max_concurrency(max_concurrency: int | None) -> None:
+    """Validate max_concurrency eagerly: None (no limit) or a positive integer.
+
+    0 would admit no node at all (run() would wait forever, map() would start
+    no worker and return []), a negative value is rejected by the semaphore
+    only after events have been emitted.
+    """
+    if max_concurrency is None:
+        return
+    if isinstance(max_concurrency, bool) or not isinstance(max_concurrency, int) or max_concurrency < 1:
+        raise ValueError(f"Invalid max_concurrency={max_concurrency!r}. Expected None (no limit) or an integer >= 1")
+
+
 _VALID_ERROR_HANDLING = ("raise", "continue")
 
 
